@@ -122,6 +122,7 @@ def nonstrict_collections(s, n):
 
 def run(s):
     K.suite_workload(s)
+    K.fixtures_workload(s)
     K.pair_histories(s)
     q = s.tier == 'quick'
     for i in range(16 if q else 500):
